@@ -1,18 +1,33 @@
 #!/bin/bash
-# For every seeded change: apply it to /repo, run every property's quick check, record which
-# checks report a violation (and whether with a failing input), undo it. Writes seeded/MATRIX.tsv.
-cd /verif
-out=${MATRIX_OUT:-seeded/MATRIX.tsv}
+# For every seeded change: apply it to the repository, run every property's quick check, record
+# which checks report a violation (and whether with a failing input), undo it.
+# Writes seeded/MATRIX.tsv (or $MATRIX_OUT).
+#
+# Default: works on /repo and /verif (nothing else may use /repo meanwhile). With MATRIX_MIRROR=<dir>
+# it works on a throw-away mirror instead (<dir>/repo = clone of /repo's HEAD, <dir>/verif = copy of
+# /verif whose harness depends on <dir>/repo), so /repo stays free; remove <dir> afterwards.
+set -u
+REPO=/repo; VERIF=/verif
+if [ -n "${MATRIX_MIRROR:-}" ]; then
+  mkdir -p "$MATRIX_MIRROR"
+  REPO=$MATRIX_MIRROR/repo; VERIF=$MATRIX_MIRROR/verif
+  rm -rf "$REPO" "$VERIF"
+  git clone -q /repo "$REPO"
+  rsync -a --exclude replays --exclude .git /verif/ "$VERIF"/
+  sed -i "s#path = \"/repo\"#path = \"$REPO\"#" "$VERIF/harness/Cargo.toml"
+fi
+cd "$VERIF"
+out=${MATRIX_OUT:-/verif/seeded/MATRIX.tsv}
 echo -e "mutant\ttarget\tcheck\tresult" > $out
 for d in ${MATRIX_ONLY:-seeded/M-* seeded/B?}; do
   m=$(basename $d); target=$(python3 -c "import json;print(json.load(open('$d/meta.json')).get('property','benign'))")
-  git -C /repo checkout -q -- . ; git -C /repo apply /verif/$d/patch.diff || { echo -e "$m\t$target\t-\tPATCH-FAILED" >> $out; continue; }
-  for p in C01 C02 C03 C04 C05 C06 C07 C08 C09 C10 C11 C12 C13 C14 C15 C16 C17 C18 C19 C20; do
-    r=$(./check $p 2>&1 | grep VIOLATION | head -1)
+  git -C $REPO checkout -q -- . ; git -C $REPO apply $VERIF/$d/patch.diff || { echo -e "$m\t$target\t-\tPATCH-FAILED" >> $out; continue; }
+  for p in ${MATRIX_CHECKS:-C01 C02 C03 C04 C05 C06 C07 C08 C09 C10 C11 C12 C13 C14 C15 C16 C17 C18 C19 C20}; do
+    r=$(HS_DEV_SKIP_PROOF=${MATRIX_SKIP_PROOF:-} ./check $p 2>&1 | grep VIOLATION | head -1)
     if [ -z "$r" ]; then res="quiet"; elif echo "$r" | grep -q no-failing-input-found; then res="ALARM-no-input"; else res="VIOLATION-with-input"; fi
     echo -e "$m\t$target\t$p\t$res" >> $out
   done
-  git -C /repo checkout -q -- .
+  git -C $REPO checkout -q -- .
 done
-git -C /repo status --short | head
+git -C $REPO status --short | head
 echo MATRIX-DONE
